@@ -1,5 +1,6 @@
 """Graph-kernel obligations over core/_ext/numerics.pyx shared by C03, C04, C11, C19 (Engine K)."""
 import itertools
+from fractions import Fraction
 import math
 
 import z3
@@ -523,6 +524,23 @@ def replay(w):
                 bad = True
                 msg = f"lists {l1},{l2}: {x} vs {y}; {list(u)} vs {list(v)}"
         return bad, f"A={A.tolist()} perm={perm} {msg}"
+    if kind == "nsi-betw-definition":
+        wt = np.array(core.to_float(w["w"]), dtype=float)
+        srcmask = [int(x) for x in w["src"]]
+        src = [i for i, s_ in enumerate(srcmask) if s_]
+        if not src:
+            return False, "empty source set"
+        probs = []
+        for G, targets in w["cases"]:
+            A = np.array(G, dtype="int8")
+            n = len(A)
+            net = Network(adjacency=A, node_weights=wt, silence_level=3)
+            got = np.asarray(net.nsi_betweenness(sources=src, targets=targets), dtype=float)
+            ref = np.array([float(core.to_float(nsi_betw_spec(G, [Fraction(x).limit_denominator(10 ** 9) for x in wt], srcmask, list(targets), i)))
+                            for i in range(n)])
+            if not np.allclose(got, ref, rtol=1e-7, atol=1e-9):
+                probs.append(f"A={A.tolist()} w={wt.tolist()} sources={src} targets={targets}: nsi_betweenness {got.tolist()} vs definition {ref.tolist()}")
+        return bool(probs), "; ".join(probs[:3])
     if kind in ("nsi-betw-perm", "nsi-betw-additive"):
         wt = np.array(core.to_float(w["w"]), dtype=float)
         bad = False
@@ -607,6 +625,85 @@ def ob_nsi_betw_additive(name, prop, n, graphs):
     return decide(name, hyps, bad, [mod.func_info("_nsi_betweenness")],
                   f"{len(graphs)} labelled graphs on n={n} nodes (concrete topologies), real weights>0, source mask bits, all contiguous target splits",
                   f"{prop}|_nsi_betweenness|additive-over-targets", wit, timeout=300)
+
+
+def shortest_paths(A):
+    """all shortest paths of a concrete topology: {(s, t): [node lists]} for reachable ordered pairs s != t"""
+    n = len(A)
+    out = {}
+    for s in range(n):
+        dist = {s: 0}
+        preds = {}
+        q = [s]
+        while q:
+            v = q.pop(0)
+            for u in range(n):
+                if A[v][u]:
+                    if u not in dist:
+                        dist[u] = dist[v] + 1
+                        q.append(u)
+                    if dist[u] == dist[v] + 1:
+                        preds.setdefault(u, []).append(v)
+
+        def build(t):
+            if t == s:
+                return [[s]]
+            return [p + [t] for v in preds.get(t, []) for p in build(v)]
+        for t in dist:
+            if t != s:
+                out[(s, t)] = build(t)
+    return out
+
+
+def prod(xs):
+    r = 1
+    for x in xs:
+        r = mul(r, x)
+    return r
+
+
+def nsi_betw_spec(A, w, src, targets, i):
+    """n.s.i. shortest-path betweenness of node i by definition: sum over ordered pairs (s, t), s a source, t a target, i not an end
+    point, of w_s w_t * (weight of the shortest s-t paths through i, leaving out w_i) / (weight of all shortest s-t paths); the weight of
+    a path is the product of the weights of its inner nodes.  (unit weights: twice the classical betweenness)"""
+    tot = 0
+    for (s, t), pl in shortest_paths(A).items():
+        if i in (s, t) or t not in targets:
+            continue
+        through = [p for p in pl if i in p[1:-1]]
+        if not through:
+            continue
+        num = sx.total(prod([w[v] for v in p[1:-1] if v != i]) for p in through)
+        den = sx.total(prod([w[v] for v in p[1:-1]]) for p in pl)
+        mult = targets.count(t)
+        term = mul(mul(mul(src[s], w[s]), w[t]), div(num, den))
+        tot = add(tot, mul(mult, term))
+    return tot
+
+
+def ob_nsi_betw_definition(name, prop, n, graphs):
+    """_nsi_betweenness(...)[i] == w_i * (n.s.i. betweenness of i by definition), symbolic weights and source mask, on concrete topologies
+    (connected or not), for all targets and for a proper subset of targets"""
+    mod = kern.module(CO)
+    w = [z3.Real(f"w{i}") for i in range(n)]
+    src = [z3.Int(f"s{i}") for i in range(n)]
+    hyp = [x > 0 for x in w] + [z3.Or(s == 0, s == 1) for s in src]
+    bad, hyps, cases = [], list(hyp), []
+    for A in graphs:
+        for targets in (list(range(n)), list(range(n - 1, -1, -2))):
+            out, r = run_nsi_betweenness(A, w, src, targets, f"d{len(cases)}", hyp)
+            hyps += r.assumptions
+            bad.append(not_(r.ok()))
+            for i in range(n):
+                bad.append(ne(out.data[i], mul(w[i], nsi_betw_spec(A, w, src, targets, i))))
+            cases.append((A, targets))
+
+    def wit(m):
+        return {"kind": "nsi-betw-definition", "w": [mv(m, x) for x in w], "src": [mv(m, x) for x in src],
+                "cases": [[c[0], c[1]] for c in cases]}
+    return decide(name, hyps, bad, [mod.func_info("_nsi_betweenness")],
+                  f"{len(graphs)} labelled graphs on n={n} nodes (concrete topologies incl. disconnected), real weights>0, source mask bits, "
+                  "all targets and every second target", f"{prop}|_nsi_betweenness|definition", wit, timeout=300)
 
 
 def ob_cross_perm(name, prop, n, pairs, k):
